@@ -150,3 +150,33 @@ func longDocJobs(entry string, thorough, light bool, cfgs []string, extra ...int
 	}
 	return jobs, fmt.Sprintf("long documents: each unit of %q repeated n times for EVERY n in 0..%d (0..%d for the later units; step %d) in front of its tail, one fully symbolic byte in the tail, configurations %v in rotation", us, maxN, maxN/2, step, cfgs)
 }
+
+// deepNestJobs: "arbitrarily deep nesting" — one opener repeated n times in front of a short tail with a
+// symbolic byte, optionally with the matching closers behind it.
+func deepNestJobs(entry string, thorough bool, cfgs []string, extra ...interface{}) ([]interp.Job, string) {
+	type unit struct{ open, close string }
+	units := []unit{{"> ", ""}, {"- ", ""}, {"*", "*"}, {"[", "](u)"}, {"![", "](u)"}, {"`", "`"}, {"_a", "_"}, {"<", ">"}, {"(", ")"}, {"*a ", ""}, {"1. ", ""}, {"**", "**"}, {"\\", ""}, {"&", ";"}, {"~~", "~~"}, {"[^", "]"}, {"|", "|\n|-"}}
+	ns := []int{16, 100}
+	if thorough {
+		ns = []int{16, 64, 128, 250}
+	}
+	var jobs []interp.Job
+	k := 0
+	for _, u := range units {
+		for _, n := range ns {
+			if (u.open == "- " || u.open == "1. ") && n > 128 {
+				n = 128 // list nesting is quadratic in the interpreter; 128 levels stay inside the instruction budget
+			}
+			c := cfgs[k%len(cfgs)]
+			k++
+			post := ""
+			if u.close != "" && k%2 == 0 {
+				for i := 0; i < n; i++ {
+					post += u.close
+				}
+			}
+			jobs = append(jobs, job(entry, append([]interface{}{"cfg", c, "rep", u.open, "repn", n, "seed", "a](b)", "pos", k % 6, "window", 1, "post", post + "\n"}, extra...)...))
+		}
+	}
+	return jobs, fmt.Sprintf("deep nesting: each opener of %q repeated n times, n in %v (list markers at most 128), in front of 'a](b)' with one fully symbolic byte, for alternate n followed by the same number of matching closers; configurations %v in rotation", units, ns, cfgs)
+}
